@@ -325,7 +325,7 @@ func genC11(r *Rand, tier string, i int) *h.Scenario {
 	p.PReaders = 0.7
 	p.PRacer = 0.4
 	p.PClientAdd = 0.2
-	p.PQueueAfter = 0
+	p.PQueueAfter = 0.1 // wave 15: bars that finish while still queued keep their terminal state through the hand-over
 	p.WGet = 8
 	p.WTotal = 4 // late size corrections on a bar that has finished: valid, ignored, and they change nothing
 	p.PLate = 0.5
